@@ -13,7 +13,7 @@
   A colour value is the number its Rust value holds (`ColorSpec.Valid`): the storage integer of an
   RGB struct, the inner raw value of a gray struct, `0`/`1` for `BinaryColor::Off`/`On`.
   Raw values are inner values of the raw newtypes, which are always `< 2^BITS_PER_PIXEL`
-  (`raw_from_u32_fits`: every public constructor masks).
+  (`raw_from_u32_fits`, `raw_from_u32_exact`: every public constructor masks, and does nothing else).
 -/
 import EG.Lemmas.Color
 namespace EG.C12
@@ -21,13 +21,27 @@ open EG EG.Generated EG.ColorSpec
 
 /-! ### the generated table is what the translator saw in the source, and every record is a sound layout -/
 
-/-- Table sizes equal the numbers of macro invocations the translator counted in the source. -/
+/-- The table built by the translator's table parser (`rgb_color!` / `gray_color!` invocations of
+rgb_color.rs / gray_color.rs, `BinaryColor` by name, `impl_raw_data!` invocations) has as many entries
+of each kind as the translator's INDEPENDENT census found types of that kind (`seen*`: a second scan of
+every file under core/src/pixelcolor that follows `impl PixelColor for` / `impl RawData for` through
+producer and wrapper macros and counts their literal invocations plus hand-written impls; see
+tools/tr_color.py `census_types`). The two numbers come from different code over different text, so a
+colour type that enters through a path the table parser does not read (a direct `impl_rgb_color!(..)`
+call, a new wrapper macro, a hand-written impl, another file) makes this false; the translator also
+raises `TieError` itself in that case, naming the type. -/
 theorem table_counts :
     (colorTable.filter (·.isRgb)).length = seenRgbTypes
     ∧ (colorTable.filter (·.kind == .gray)).length = seenGrayTypes
     ∧ (colorTable.filter (·.kind == .binary)).length = seenBinaryTypes
     ∧ colorTable.length = seenRgbTypes + seenGrayTypes + seenBinaryTypes
     ∧ rawTable.length = seenRawTypes := by decide
+
+/-- `BinaryColor`'s raw values as the source writes them (`RawU1::new(color.map_color(binOffRaw,
+binOnRaw))`, literals regenerated from binary_color.rs) are what the model's `toRaw` produces, and
+`fromRaw` maps them back (`Off = 0`, `On = 1`): ties the model's hard-coded `0`/`1` to the source. -/
+theorem binary_raw_values : ∀ s ∈ colorTable, s.kind = .binary →
+    s.toRaw 0 = binOffRaw ∧ s.toRaw 1 = binOnRaw ∧ s.fromRaw binOffRaw = 0 ∧ s.fromRaw binOnRaw = 1 := by decide
 
 /-- Every record: supported raw shape, channels at most 8 bits, the three fields adjacent and disjoint
 from bit 0, inside `BITS_PER_PIXEL` and inside the struct's storage integer, byte views of the
@@ -65,6 +79,10 @@ theorem from_raw_valid : ∀ s ∈ colorTable, ∀ raw, raw < 2 ^ s.rawBpp → s
 for every `u32` argument, including arguments with bits set beyond the storage type. -/
 theorem raw_from_u32_fits : ∀ s ∈ colorTable, ∀ v, s.rawFromU32 v < 2 ^ s.rawBpp := Color.rawFromU32_lt
 
+/-- Exactly: `from_u32(v)` is `v` with every bit from `BITS_PER_PIXEL` upwards cleared and nothing
+else changed, for EVERY `u32` (every value of the storage type and beyond). -/
+theorem raw_from_u32_exact : ∀ s ∈ colorTable, ∀ v, s.rawFromU32 v = v % 2 ^ s.rawBpp := Color.rawFromU32_eq
+
 /-- Every value of an RGB type is `new` of its own channels (so the channels determine the colour). -/
 theorem valid_eq_new : ∀ s ∈ colorTable, s.isRgb = true → ∀ c, s.Valid c →
     c = s.rgbNew (s.chanR c) (s.chanG c) (s.chanB c)
@@ -80,6 +98,11 @@ theorem into_fits : ∀ s ∈ colorTable, ∀ c, s.Valid c → s.toRaw c < 2 ^ s
 RGB/BGR types, all of `BITS_PER_PIXEL` otherwise) and clears exactly the bits above them. -/
 theorem raw_clears_unused_only : ∀ s ∈ colorTable, ∀ raw, raw < 2 ^ s.rawBpp →
     s.toRaw (s.fromRaw raw) = raw % 2 ^ s.usedBits := Color.raw_clears_unused_only
+
+/-- The same from an arbitrary storage value (bits above `BITS_PER_PIXEL` and unused bits set):
+`u32 -> raw -> colour -> raw` keeps the low `usedBits` bits and clears exactly the rest. -/
+theorem u32_raw_color_raw : ∀ s ∈ colorTable, ∀ v,
+    s.toRaw (s.fromRaw (s.rawFromU32 v)) = v % 2 ^ s.usedBits := Color.u32_raw_color_raw
 
 theorem raw_idempotent : ∀ s ∈ colorTable, ∀ raw, raw < 2 ^ s.rawBpp →
     s.toRaw (s.fromRaw (s.toRaw (s.fromRaw raw))) = s.toRaw (s.fromRaw raw) := Color.raw_idempotent
